@@ -1,6 +1,7 @@
 package c09
 
 import (
+	"bytes"
 	"context"
 	"encoding/xml"
 	"errors"
@@ -68,9 +69,9 @@ type env struct {
 	obs        map[string]int
 	acts       map[string]*action
 	actList    []*action
-	libElems   []*xmltree.Node // complete elements the library wrote, in order
+	libElems   []*xmltree.Node   // complete elements the library wrote, in order
 	libIDs     map[string]string // id -> type of stanzas the library wrote
-	sent       []byte          // everything the peer wrote after its header
+	sent       []byte            // everything the peer wrote after its header
 	autoReply  func(req *xmltree.Node) string
 	onElem     func(n *xmltree.Node)
 	fixedIDs   map[string]bool
@@ -79,7 +80,7 @@ type env struct {
 	outConn    *ibb.Conn
 	wedged     bool
 	tag        string // workload 2: the library function owning the response
-	readAll    bool // history consumer reads every token of Current()
+	readAll    bool   // history consumer reads every token of Current()
 
 	bg   sync.WaitGroup
 	loop *sess.PeerLoop
@@ -381,10 +382,7 @@ func (e *env) wait(cond func() bool, what string, actions bool) int {
 				e.mu.Unlock()
 				return waitStall
 			}
-			form := "wellformed-input"
-			if st := xmltree.ParseStream(e.input(), true); st.Err != nil || st.Trailing {
-				form = "malformed-input"
-			}
+			form := inputForm(e.input())
 			key := stall.Key(p)
 			if p.Func == "handleInputStream" {
 				// Serve waits for a response to be closed: the site says nothing, the
@@ -401,6 +399,45 @@ func (e *env) wait(cond func() bool, what string, actions bool) int {
 			e.mu.Unlock()
 			return waitStall
 		}
+	}
+}
+
+// inputForm says whether the peer's byte stream is a well-formed XMPP stream
+// as far as it goes: no syntax error, no unfinished construct at its end, and
+// none of the constructs XMPP forbids (comments, processing instructions,
+// directives), all of which make a reader of the library fail.
+func inputForm(b []byte) string {
+	d := xml.NewDecoder(bytes.NewReader(b))
+	depth, first := 0, true
+	for {
+		tok, err := d.Token()
+		if err == io.EOF {
+			if depth > 1 {
+				return "malformed-input"
+			}
+			return "wellformed-input"
+		}
+		if err != nil {
+			// a stream that simply stops between two stanzas (no closing tag) is
+			// reported as an unexpected EOF by the decoder
+			if se, ok := err.(*xml.SyntaxError); ok && strings.Contains(se.Msg, "unexpected EOF") && depth <= 1 && bytes.HasSuffix(bytes.TrimSpace(b), []byte(">")) {
+				return "wellformed-input"
+			}
+			return "malformed-input"
+		}
+		switch t := tok.(type) {
+		case xml.StartElement:
+			depth++
+		case xml.EndElement:
+			depth--
+		case xml.ProcInst:
+			if !(first && t.Target == "xml") {
+				return "malformed-input"
+			}
+		case xml.Comment, xml.Directive:
+			return "malformed-input"
+		}
+		first = false
 	}
 }
 
